@@ -332,6 +332,11 @@ def judge(ctx, spec, res, explain=True):
                 break
         if v:
             break
+    if v is None and res.get('changed_later'):
+        t, i, now = res['changed_later'][0]
+        c = spec['threads'][t][i]
+        v = {'kind': 'returned-object-changed-later', 'thread': t, 'call': i, 'f': c['f'], 'call_repr': call_repr(c),
+             'expected': res['results'][t][i][0], 'observed': now}
     if v is None and res['post'] is not None:
         for which in ('post', 'post_seq'):
             for t, tc in enumerate(spec['threads']):
@@ -380,6 +385,7 @@ def run_one(ctx, run_seed, tier, force=None):
         'history_dependence': hd is not None,
         'raised_ok': sum(1 for tc in res['results'] for r in tc if r[0][0] == 'exc'),
         'killed': bool(res.get('killed')),
+        'fair_switches': res.get('fair_switches', 0),
         'clock_jumps': res.get('clock_jumps', 0), 'clock_reads': res.get('clock_reads', 0), 'timeouts_fired': res.get('timeouts_fired', 0),
     }
     return summ, spec, res, v
